@@ -28,6 +28,7 @@ import (
 //	                        client's handshake timeout
 //	"drop"            the server side cuts every TCP connection of the client
 //	"close"           Manager.Close()
+//	"abort" "sabort"  Manager.Close() / socket.Disconnect() while the manager sleeps in a back-off delay
 //
 // Recorded: the manager events in handler order with monotonic time stamps, interleaved with markers
 // for the rig's own actions and for every dial the gate saw.  While the socket is down the rig emits
@@ -276,7 +277,7 @@ func runReconnect(c rcCase) rcCase {
 	})
 
 	const wait = 6 * time.Second
-	settle := 3*maxD + 40*time.Millisecond
+	settle := maxD + 60*time.Millisecond // longer than any back-off delay: an attempt that should not follow would show
 	first := true
 	i := 0
 	for i < len(c.Script) && !c.Timeout {
@@ -352,11 +353,36 @@ func runReconnect(c rcCase) rcCase {
 			if !waitFor(func() bool { return count("close") > close0 }, wait) {
 				c.Timeout = true
 			}
+		case in == "abort" || in == "sabort":
+			// the application gives up in the middle of a retry cycle: the previous step ended with the
+			// report of a failed dial (or with the close event), so the manager has just begun to sleep
+			// in its next back-off delay (these scripts use delays >= 80 ms); a moment later, well inside
+			// that sleep, Manager.Close() resp. socket.Disconnect() is called
+			time.Sleep(25 * time.Millisecond)
+			mu.Lock()
+			close0 := count("close")
+			mu.Unlock()
+			rec("in:abort", 0)
+			if in == "abort" {
+				manager.Close()
+			} else {
+				socket.Disconnect() // last active socket of the manager: ends in Manager.Close()
+				first = true        // the socket has left the manager: the next open is socket.Connect()
+			}
+			i++
+			if !waitFor(func() bool { return count("close") > close0 }, wait) {
+				c.Timeout = true
+			}
+			// the sleeping retry loop (it holds the manager's connect mutex) ends with its delay
+			time.Sleep(maxD)
 		default:
 			// a dial outcome without open/drop before it: generator error
 			panic("reconnect: script not well formed: " + fmt.Sprint(c.Script))
 		}
 		// anything that follows by itself (reconnect_failed, or events that should not be there)
+		if i < len(c.Script) && (c.Script[i] == "abort" || c.Script[i] == "sabort") {
+			continue // the abort has to land inside the back-off sleep that has just begun
+		}
 		time.Sleep(settle)
 	}
 	// if the socket is connected at the end, everything emitted while it was down must have arrived
@@ -550,6 +576,23 @@ func reconnectMain(args []string) error {
 	add(2, false, 5*ms, 20*ms, false, "open", "ok", "drop", "hang", "hang")
 	add(3, false, 6*ms, 20*ms, true, "open", "ok", "drop", "f503", "f503", "ok", "drop", "garbage", "ok")
 	add(2, false, 5*ms, 20*ms, false, "open", "ok", "close", "open", "ok", "drop", "f503", "ok")
+	// retry cycles aborted by the application in the k-th back-off sleep (k = 1..3), then a fresh connection
+	// and a second outage: it must be a whole new cycle (attempt 1.., first delay, exactly N failures);
+	// or the server is still down at the re-open: the retry loop must start again
+	for k := 1; k <= 3; k++ {
+		for _, ab := range []string{"abort", "sabort"} {
+			pre := []string{"open", "ok", "drop"}
+			for j := 1; j < k; j++ {
+				pre = append(pre, []string{"f503", "garbage"}[j%2])
+			}
+			pre = append(pre, ab)
+			if (k%2 == 1) == (ab == "abort") {
+				add(4, false, 80*ms, 320*ms, false, append(append([]string{}, pre...), "open", "ok", "drop", "f503", "garbage", "f503", "f503")...)
+			} else {
+				add(3, false, 80*ms, 320*ms, false, append(append([]string{}, pre...), "open", "f503", "garbage", "ok", "drop", "ok")...)
+			}
+		}
+	}
 	for i := 0; i < *n; i++ {
 		limit := uint32(r.Intn(6))
 		norecon := r.Intn(8) == 0
